@@ -30,7 +30,7 @@ ASSUMPTIONS = ["state lifetime is an interval: idle < MAX_TRANSMIT_WAIT must sti
                "later-block request may also be refused with 4.08"]
 EXPECTED_PROBES = ["continue_231", "final_block_handler", "gap_or_overlap", "unknown_transfer", "expired_transfer",
                    "wrong_payload_length", "block2_slice", "block2_beyond_end", "block2_without_rendering",
-                   "interleaved_keys", "lifetime_gray_zone", "restart_at_zero"]
+                   "interleaved_keys", "lifetime_gray_zone", "restart_at_zero", "concurrent_requests"]
 
 T = 93.0
 METHODS = {"GET": rc.GET, "PUT": rc.PUT, "POST": rc.POST, "FETCH": rc.FETCH}
@@ -162,7 +162,26 @@ def gen_b2_steps(r, tid, nclients):
     return steps
 
 
+def gen_concurrent(r):
+    """Requests that are in processing at the same time: a handler that takes a while, and several complete requests
+    (one block each) for ONE resource with identical options from one or two endpoints arriving meanwhile -- each with
+    a body of its own where the method has one."""
+    n = r.randint(2, 5)
+    method = r.choice(["FETCH", "FETCH", "POST", "GET", "PUT"])
+    d = r.choice([0.05, 0.3, 1.0])
+    reqs = []
+    t = 0.0
+    for i in range(n):
+        t += r.choice([0.0, 0.0, 0.001, 0.01, d / 2, d * 2])
+        reqs.append({"c": r.randrange(2) if r.chance(0.3) else 0, "t": round(t, 4), "seed": 11 + i,
+                     "blen": 0 if method == "GET" else r.choice([1, 7, 16, 100])})
+    return {"concurrent": {"method": method, "d": d, "rlen": r.choice([8, 40, 100, 1200, 2500]), "szx": r.choice([None, 6, 4, 2]),
+                           "reqs": reqs, "follow": r.chance(0.6)}, "nclients": 2, "ops": []}
+
+
 def gen(r, tier):
+    if r.chance(0.12):
+        return gen_concurrent(r)
     nclients = r.choice([1, 2, 3])
     seqs = []
     ntr = r.randint(1, 4)
@@ -219,6 +238,12 @@ def gen(r, tier):
 def systematic(tier):
     import itertools
     out = []
+    for method in ("FETCH", "GET", "POST"):
+        for rlen, szx in ((8, None), (2500, 6), (100, 2)):
+            for gaps in ((0.0, 0.0), (0.01, 0.01), (0.01, 0.5)):
+                reqs = [{"c": 0, "t": round(sum(gaps[:k]), 4), "seed": 11 + k, "blen": 0 if method == "GET" else 7} for k in range(3)]
+                out.append({"concurrent": {"method": method, "d": 0.3, "rlen": rlen, "szx": szx, "reqs": reqs, "follow": True},
+                            "nclients": 2, "ops": []})
     for nb in (2, 3, 4):
         tr = {"tid": 0, "c": 0, "method": "PUT", "path": "r0", "query": "k=0", "szx": 0, "total": nb * 16 - 3,
               "seed": 5, "rlen": 8}
@@ -279,7 +304,122 @@ def rendering(rid, n):
     return bytes(out[:n])
 
 
+def execute_concurrent(sim, scn):
+    import asyncio
+    import aiocoap.resource as resource
+    from aiocoap import Message
+
+    loop = sim.loop
+    cc = scn["concurrent"]
+    invocations = {}
+    counter = [0]
+
+    class Slow(resource.Resource):
+        async def _do(self, request):
+            counter[0] += 1
+            rid = counter[0]
+            sa = request.remote.sockaddr
+            invocations[rid] = {"t": loop.now, "client": (sa[0], sa[1]), "body": bytes(request.payload), "method": int(request.code)}
+            sim.log("app", "invoke", rid, len(request.payload))
+            await asyncio.sleep(cc["d"])
+            return Message(payload=rendering(rid, cc["rlen"]))
+
+        render_get = render_put = render_post = render_fetch = _do
+
+    async def setup():
+        site = resource.Site()
+        site.add_resource(["slow"], Slow())
+        return await sim.server(site, common.SERVER_IP)
+
+    loop.run_until_complete(setup())
+    srv = (common.SERVER_IP, 5683)
+    got = {}  # token -> list of (t, msg)
+
+    class C(ScriptedEndpoint):
+        def handle(self, msg, src, data):
+            if msg is None or msg["code"] < 64:
+                return
+            first = msg["token"] not in got
+            got.setdefault(msg["token"], []).append((self.loop.now, msg))
+            if msg["type"] == rc.CON:
+                self.send(src, msg={"type": rc.ACK, "code": 0, "mid": msg["mid"], "token": b"", "options": [], "payload": b""})
+            b2 = rc.opt1(msg, rc.BLOCK2)
+            if first and cc.get("follow") and b2 is not None and rc.block_value(b2)[1] and len(msg["token"]) == 2:
+                # go on with the next block of "my" response
+                num, more, szx = rc.block_value(b2)
+                i = msg["token"][1]
+                tok = bytes([0xF1, i, 1])
+                follow_of[tok] = msg["token"]
+                self.send(src, msg={"type": rc.CON, "code": METHODS[cc["method"]], "mid": 0x7100 + i, "token": tok,
+                                    "options": base_options + [(rc.BLOCK2, rc.block_bytes(num + 1, False, szx))],
+                                    "payload": bodies[i] if cc["method"] == "FETCH" else b""})
+
+    follow_of = {}
+    clients = [C(sim, common.PEER_IPS[i], 5683) for i in range(2)]
+    base_options = [(rc.URI_PATH, b"slow")]
+    bodies = {}
+    sent = []
+    sim.probe("concurrent_requests")
+    for i, q in enumerate(cc["reqs"]):
+        tok = bytes([0xF0, i])
+        bodies[i] = body(q["seed"], q["blen"])
+        opts = list(base_options)
+        if cc.get("szx") is not None:
+            opts.append((rc.BLOCK2, rc.block_bytes(0, False, cc["szx"])))
+        clients[q["c"]].send(srv, msg={"type": rc.CON, "code": METHODS[cc["method"]], "mid": 0x7000 + i, "token": tok,
+                                       "options": opts, "payload": bodies[i]}, fate=["at", q["t"]])
+        sent.append((tok, i, q))
+    sim.run()
+    sim.nontrivial = True
+    for tok, i, q in sent:
+        ident = {"request": i, "method": cc["method"], "client": q["c"], "t": q["t"], "handler_takes": cc["d"], "rlen": cc["rlen"]}
+        resps = [m for (t, m) in got.get(tok, []) if m["code"] != 0]
+        if len({rc.encode(dict(m, mid=0, type=rc.NON)) for m in resps}) != 1:
+            sim.violation("C06/concurrent-request-not-answered-once", dict(ident, n=len(resps)))
+            continue
+        m = resps[0]
+        if m["code"] >> 5 != 2:
+            sim.violation("C06/concurrent-request-failed", dict(ident, code=rc.code_str(m["code"])))
+            continue
+        try:
+            rid = int(m["payload"][:5])
+        except ValueError:
+            sim.violation("C06/concurrent-request-wrong-rendering", dict(ident, payload=m["payload"][:32].hex()))
+            continue
+        inv = invocations.get(rid)
+        b2 = rc.opt1(m, rc.BLOCK2)
+        size = size_of(rc.block_value(b2)[2]) if b2 is not None else None
+        want = rendering(rid, cc["rlen"])
+        if inv is None or inv["body"] != bodies[i] or inv["client"] != clients[q["c"]].addr[:2] or \
+                m["payload"] != (want[:size] if size else want):
+            sim.violation("C06/response-not-rendered-for-this-request",
+                          dict(ident, rendering=rid, handler_saw_body=None if inv is None else inv["body"][:16].hex(),
+                               request_body=bodies[i][:16].hex()))
+            continue
+        if cc["method"] in ("FETCH", "GET"):
+            # the next block, asked for right after "my" first one: a slice of a rendering made for the latest block-0
+            # request of this endpoint -- whichever of the overlapping ones that is, it is one the handler made for a
+            # request of this endpoint; a slice of nothing else
+            ftok = bytes([0xF1, i, 1])
+            for (t, fm) in got.get(ftok, []):
+                if fm["code"] >> 5 != 2:
+                    continue
+                sim.probe("concurrent_followup_block")
+                cands = [r_ for r_, v in invocations.items() if v["client"] == clients[q["c"]].addr[:2]]
+                fb2 = rc.block_value(rc.opt1(fm, rc.BLOCK2))
+                lo = fb2[0] * size_of(fb2[2])
+                if not any(rendering(r_, cc["rlen"])[lo:lo + size_of(fb2[2])] == fm["payload"] for r_ in cands):
+                    sim.violation("C06/block-not-a-slice-of-own-rendering", dict(ident, num=fb2[0]))
+    if len(invocations) != len(sent):
+        sim.violation("C06/handler-invocations-differ-from-requests", {"requests": len(sent), "invocations": len(invocations),
+                                                                      "method": cc["method"]})
+    for (t, m, en, es) in sim.loop_exceptions():
+        sim.anomaly("loop-exception:%s" % en, "%s %s" % (m, es))
+
+
 def execute(sim, scn):
+    if scn.get("concurrent"):
+        return execute_concurrent(sim, scn)
     import aiocoap.resource as resource
     from aiocoap import Message
 
